@@ -349,6 +349,39 @@ func NamespaceIdentifierName(namespace string) string {
 	return formatting.ToSnakeCase(namespace)
 }
 
+// Modules that the generated modules import or define
+var reservedNamespaceNames = map[string]bool{
+	"abc":         true,
+	"binary":      true,
+	"collections": true,
+	"datetime":    true,
+	"enum":        true,
+	"io":          true,
+	"json":        true,
+	"ndjson":      true,
+	"np":          true,
+	"npt":         true,
+	"numpy":       true,
+	"protocols":   true,
+	"struct":      true,
+	"sys":         true,
+	"time":        true,
+	"types":       true,
+	"typing":      true,
+	"yardl":       true,
+	"yardl_types": true,
+}
+
+// Returns an error if the Python package derived from the yardl namespace would
+// be a reserved word or clash with a module used by the generated code
+func ValidateNamespaceName(namespace string) error {
+	identifier := NamespaceIdentifierName(namespace)
+	if _, reserved := reservedNames[identifier]; reserved || reservedNamespaceNames[identifier] {
+		return fmt.Errorf("the namespace '%s' cannot be used for Python code generation because '%s' is reserved", namespace, identifier)
+	}
+	return nil
+}
+
 func TypeNamespaceIdentifierName(t dsl.TypeDefinition) string {
 	return NamespaceIdentifierName(t.GetDefinitionMeta().Namespace)
 }
